@@ -7,7 +7,7 @@ Position-wise access uses an uninterpreted enumeration nth/rank tied to the pred
 """
 import z3
 from .core import (ctx, SNum, SBool, lift, conc, Undecided, PathRaise, ite, land, lor, implies, forall, Q, fresh_int,
-                   lnot, is_sym)
+                   lnot, is_sym, ite_pc)
 from .arr import SArr, as_index
 
 
@@ -40,7 +40,8 @@ class SortedIdx:
             c.assume(ln >= 0)
             c.assume(forall(lambda p: implies(land(p >= 0, p < ln),
                                               land(me.member(SNum(nth(p.t), "int")), SNum(rank(nth(p.t)), "int") == p)), name="nth_" + nm))
-            c.assume(forall(lambda p: implies(land(p >= 0, p + 1 < ln), SNum(nth(p.t), "int") < SNum(nth((p + 1).t), "int")), name="inc_" + nm))
+            c.assume(forall(lambda p, q: implies(land(p >= 0, p < q, q < ln), SNum(nth(p.t), "int") < SNum(nth(q.t), "int")),
+                            sorts=("int", "int"), name="inc_" + nm))
             c.assume(forall(lambda x: implies(me.member(x), land(SNum(rank(x.t), "int") >= 0, SNum(rank(x.t), "int") < ln,
                                                                 SNum(nth(rank(x.t)), "int") == x)), name="rank_" + nm))
         return self._len, self._nth
@@ -149,7 +150,7 @@ class ConsecutivePairs:
 
     def sym_len(self):
         ln = self.s.sym_len()
-        return ite(ln > 0, ln - 1, 0)
+        return ite_pc(ln > 0, ln - 1, 0)
 
     __slen__ = sym_len
 
